@@ -46,6 +46,7 @@ type c19cfg struct {
 	prefixesTried int
 	prefixExhaustive bool
 	dumpLen int
+	periodic bool
 }
 
 func c19Setup(rc *RunCtx) simrt.Config {
@@ -59,6 +60,8 @@ func c19Setup(rc *RunCtx) simrt.Config {
 	c.via = r.Choose(2)
 	c.enospc = c.via == 0 && r.Choose(4) == 0
 	c.flips = []int{0, 1, 3, 16}[r.Choose(4)]
+	c.periodic = r.Choose(8) == 0
+	rc.Cfg["periodic_dump_crash"] = c.periodic
 	rc.Cfg["strategy"] = sname
 	rc.Cfg["kind"] = "cache plugin dump/load"
 	rc.Cfg["entries"] = c.n
@@ -159,8 +162,85 @@ func cacheFill(c *cacheplug.Cache, q *dns.Msg, ans *dns.Msg) {
 	}
 }
 
+// c19Periodic: the periodic dump (truncate, then stream) runs in its own task
+// while queries continue; the machine "crashes" after a PRNG-chosen number of
+// file writes; the restarted instance loads what is on disk.
+func c19Periodic(rc *RunCtx, c *c19cfg) {
+	disk := simdisk.New()
+	simrt.CreateHook = disk.Create
+	simrt.OpenHook = disk.Open
+	A := cacheplug.NewCache(&cacheplug.Args{Size: 8192, LazyCacheTTL: c.lazy, DumpFile: "p1", DumpInterval: 1}, cacheplug.Opts{})
+	ttls := []uint32{300, 600, 3600}
+	n := 1030 + simrt.Choose(60)
+	mkq := func(i int) *dns.Msg { return mkQuery(fmt.Sprintf("p%d.test.", i), dns.TypeA, uint16(i)) }
+	for i := 0; i < n; i++ {
+		q := mkq(i)
+		cacheFill(A, q, genAnswer(rc.R, q, ttls, false))
+	}
+	disk.CrashAfterWrites = 1 + simrt.Choose(12)
+	if simrt.Choose(4) == 0 {
+		disk.CrashAfterWrites = 1 << 30 // no crash: the periodic dump completes
+	} else if simrt.Choose(3) == 0 {
+		disk.CrashAfterWrites = 12 + simrt.Choose(200)
+	}
+	stop := false
+	done := make(chan struct{}, 1)
+	simrt.GoNamed("traffic", func() {
+		// lookups and stores of NEW keys while the dump streams (existing entries stay as they are)
+		for k := 0; !stop && k < 400; k++ {
+			if simrt.Choose(2) == 0 {
+				cacheLookup(A, mkq(simrt.Choose(n)))
+			} else {
+				q := mkq(n + k)
+				cacheFill(A, q, genAnswer(rc.R, q, ttls, false))
+			}
+			simrt.Sleep(0, time.Millisecond)
+		}
+		simrt.Send(0, done, struct{}{})
+	})
+	simrt.Sleep(0, 1200*time.Millisecond) // the ticker fires at 1 s; the dump runs concurrently with the traffic
+	stop = true
+	simrt.Recv(0, done)
+	if disk.Creates["p1"] == 0 {
+		rc.Inconcl = "periodic dump did not start"
+		A.Close()
+		return
+	}
+	simrt.Probe("c19.periodic_dump_ran")
+	if disk.Writes["p1"] > disk.CrashAfterWrites {
+		simrt.Probe("c19.crash_inside_periodic_dump")
+		simrt.Fault("crash_during_periodic_dump")
+	}
+	disk.Frozen = true
+	final, _ := apiDump(A)
+	want, err := decodeDump(final)
+	if err != nil {
+		rc.Fail("dump_unreadable", "%v", err)
+		return
+	}
+	A.Close()
+	c.dumpLen = len(disk.Files["p1"])
+	simrt.Sleep(0, time.Duration(simrt.Choose(5))*time.Second)
+	B := cacheplug.NewCache(&cacheplug.Args{Size: 8192, LazyCacheTTL: c.lazy, DumpFile: "p1", DumpInterval: 3600}, cacheplug.Opts{})
+	got, _ := apiDump(B)
+	have, err := decodeDump(got)
+	if err != nil {
+		rc.Fail("dump_unreadable", "%v", err)
+		return
+	}
+	c19Subset(rc, have, want, fmt.Sprintf("after a crash during the periodic dump (%d of the file's writes reached the disk, %d bytes)", disk.CrashAfterWrites, c.dumpLen))
+	if rc.Viol == nil && disk.Writes["p1"] <= disk.CrashAfterWrites && len(have) < 1024 {
+		rc.Fail("complete_periodic_dump_lost_entries", "the periodic dump completed (%d writes) but only %d entries were reloaded", disk.Writes["p1"], len(have))
+	}
+	B.Close()
+}
+
 func c19Main(rc *RunCtx) {
 	c := rc.priv.(*c19cfg)
+	if c.periodic {
+		c19Periodic(rc, c)
+		return
+	}
 	disk := simdisk.New()
 	simrt.CreateHook = disk.Create
 	simrt.OpenHook = disk.Open
